@@ -78,6 +78,7 @@ def run(repo, rep, tier):
     r5 = rep.rule('C07.R5', 'case()/case_sorted() consistent with equality')
     nested_reference_rule(repo, rep)
     keybinding_tokeniser_rule(repo, rep)
+    real_key_text_rule(repo, rep)
     inm = repo.cls(OBJ, 'CIMInstanceName')
     cnm = repo.cls(OBJ, 'CIMClassName')
 
@@ -495,6 +496,8 @@ def nested_reference_rule(repo, rep):
                             'vanished')
     r6.functions.update([kb.fq, pr.fq])
     mand = _mandatory_literals(pr)
+    from ..inline import Flat
+    kb = Flat(kb, keep=('from_wbem_uri',))
     sf = stmt_facts(kb.node)
     calls = []
     for st, (facts, _t) in sf.items():
@@ -571,6 +574,21 @@ def keybinding_tokeniser_rule(repo, rep):
         kbval = None
     if not kbval:
         raise AnalysisError('_KB_VAL not resolvable')
+    def from_group(e, depth=0):
+        """the expression is (a local bound to) a group of a match"""
+        for x in ast.walk(e):
+            if isinstance(x, ast.Call) and \
+                    isinstance(x.func, ast.Attribute) and \
+                    x.func.attr == 'group':
+                return True
+            if isinstance(x, ast.Name) and depth < 2:
+                for a in walk_no_nested(f.node):
+                    if isinstance(a, ast.Assign) and len(a.targets) == 1 and \
+                            isinstance(a.targets[0], ast.Name) and \
+                            a.targets[0].id == x.id and \
+                            from_group(a.value, depth + 1):
+                        return True
+        return False
     # which local holds the match of the keybindings pattern
     cut_calls = []
     for c in walk_no_nested(f.node):
@@ -578,10 +596,7 @@ def keybinding_tokeniser_rule(repo, rep):
                 not isinstance(c.func, ast.Attribute):
             continue
         if c.func.attr in ('findall', 'finditer', 'split', 'sub', 'scanner') \
-                and c.args and any(
-                    isinstance(x, ast.Call) and
-                    isinstance(x.func, ast.Attribute) and
-                    x.func.attr == 'group' for x in ast.walk(c.args[-1])):
+                and c.args and from_group(c.args[-1]):
             cut_calls.append(c)
         elif c.func.attr in ('split', 'partition', 'rsplit') and \
                 isinstance(c.func.value, ast.Call) and \
@@ -615,3 +630,77 @@ def keybinding_tokeniser_rule(repo, rep):
                         'cut in the middle and the URI pywbem itself '
                         'printed is rejected'
                         % (c.func.attr, repr(pat) if pat else norm(recv)))
+
+
+def real_key_text_rule(repo, rep):
+    """C07.R8: a real key value is printed with the text that determines it.
+    to_wbem_uri() prints real keys with str(value), i.e. CIMFloat.__str__();
+    both must yield the complete round-trip text of the number (repr, or a
+    conversion with >= 17 significant digits).  A conversion with fewer
+    digits (`.15g`) prints 0.1+0.2 as 0.3: the parsed path has another key
+    value and no longer equals (or finds) the original."""
+    from ..cfg import stmt_facts
+    from ..inline import Flat
+    from .. import realtext
+    r8 = rep.rule('C07.R8', 'real key values are printed with their exact '
+                  '(round-trip) text')
+    TYPES = 'pywbem/_cim_types.py'
+    cf = repo.cls(TYPES, 'CIMFloat')
+    n = 0
+    for mn in ('__str__',):
+        m = cf.methods.get(mn)
+        if m is None:
+            # float.__str__ is inherited: exact
+            continue
+        r8.functions.add(m.fq)
+        for pth, verdict, detail in realtext.analyse(Flat(m), {'self'}, 17):
+            n += 1
+            r8.sites += 1
+            if verdict == 'undecided':
+                r8.undecided.append('%s: %s' % (m.qualname, detail))
+                continue
+            r8.ob(verdict == 'ok', '%s|%s' % (m.qualname, detail))
+            if verdict != 'ok':
+                rep.finding(r8, m.qualname, 'return %s' % detail, verdict,
+                            TYPES, getattr(pth.ret_stmt, 'lineno',
+                                           m.node.lineno),
+                            'the string form of a real value is not its '
+                            'exact text (%s): a real key printed by '
+                            'to_wbem_uri() is parsed back as another value'
+                            % verdict)
+    inm = repo.cls(OBJ, 'CIMInstanceName')
+    pr = inm.methods.get('to_wbem_uri')
+    if pr is None:
+        raise AnalysisError('CIMInstanceName.to_wbem_uri vanished')
+    r8.functions.add(pr.fq)
+    for st, (facts, _t) in stmt_facts(pr.node).items():
+        real = None
+        for t, pol in facts:
+            if pol and isinstance(t, ast.Call) and \
+                    dotted(t.func) == 'isinstance' and \
+                    isinstance(t.args[0], ast.Name) and \
+                    'CIMFloat' in norm(t.args[1]):
+                real = t.args[0].id
+        if real is None or not (isinstance(st, ast.Expr) and
+                                isinstance(st.value, ast.Call) and
+                                isinstance(st.value.func, ast.Attribute) and
+                                st.value.func.attr in ('append', 'extend')
+                                and st.value.args):
+            continue
+        n += 1
+        r8.sites += 1
+        it = realtext._Interp({real}, 17)
+        v = it.ev(st.value.args[0])
+        if v is None:
+            r8.undecided.append('to_wbem_uri: %s' % norm(st, 50))
+            continue
+        ok = v[0] == 'text' and v[1]
+        r8.ob(ok, 'to_wbem_uri|%s' % norm(st, 50))
+        if not ok:
+            rep.finding(r8, pr.qualname, norm(st, 60), 'real-key-text', OBJ,
+                        st.lineno,
+                        'the text printed for a real key is not the '
+                        'complete round-trip text of the value (%s)'
+                        % (v,))
+    if n < 2:
+        raise AnalysisError('C07.R8: real key printing sites not found')
